@@ -213,6 +213,9 @@ func (w *Wrapper) Set(key string, val any) {
 func (w *Wrapper) Copy() Resource {
 	nw := Wrap(reflect.New(w.val.Type()).Interface())
 
+	// ID
+	nw.SetID(w.GetID())
+
 	// Attributes
 	for _, attr := range w.Attrs() {
 		nw.Set(attr.Name, w.Get(attr.Name))
